@@ -291,10 +291,15 @@ def run(pid, tier, seed, replay=None):
     total_transitions = len(scheds)
     cap = 16000 if thorough else 700
     if len(scheds) > cap:
+        # kept whatever the sample: the two-operation histories that add a target and store for a target
+        both = lambda h: len(h) == 2 and {e['ev'] for e in h} == {'AddTarget', 'Update'}  # noqa: E731
+        must = [h for h in scheds if both(h)]
+        scheds = [h for h in scheds if not both(h)]
+        cap -= len(must)
         short = [h for h in scheds if len(h) <= 2]
         rest = [h for h in scheds if len(h) > 2]
         rnd.shuffle(rest)
-        scheds = (short + rest)[:cap] if len(short) < cap else rnd.sample(short, cap)
+        scheds = must + ((short + rest)[:cap] if len(short) < cap else rnd.sample(short, cap))
     obs3 = f_obs.result()
     total_transitions += len(obs3)
     scheds += obs3
